@@ -441,7 +441,7 @@ func runC05(c *Ctx) {
 			c.R.Bad(rule, core.FuncName(rd)+"/exhausted-on-error", cfg, p.Pos(call.Pos()), "after a failed frame (header/EOF, size, checksum or decompression error) readBlock has already reset pos and sized data from the unverified header, and nothing truncates it: the next Read hands out the previous frame again or zero bytes as if they were verified data")
 		}
 		// refill only when exhausted
-		refill := core.CondEdges(rd, true, func(cond ssa.Value) (bool, bool) {
+		refill := core.PredEdges(rd, true, func(cond ssa.Value) (bool, bool) {
 			bo, ok := cond.(*ssa.BinOp)
 			if !ok {
 				return false, false
